@@ -496,3 +496,38 @@ Theorem r2w_formula w y yhat : ~ r2_den w y == 0 ->
 Proof.
   intros H. unfold r2w. destruct (Qeqb (r2_den w y) 0) eqn:E; [apply Qeqb_spec in E; contradiction|reflexivity].
 Qed.
+
+(** * combined statements used by Props/C12.v *)
+Theorem score_components_spec (mt : metric) pred data w i :
+  (i < length pred)%nat -> (i < length data)%nat ->
+  match w with Some ws => length ws = length data | None => True end ->
+  nth i (score_components mt pred data w) 0 = mt (weight_of w i) (nth i data []) (nth i pred []) /\
+  length (score_components mt pred data w) = Nat.min (length pred) (length data).
+Proof.
+  intros. split; [apply score_components_nth; assumption|apply score_components_length; assumption].
+Qed.
+
+Theorem schedule_independent_full (R : Type) (tasks : list (unit -> R)) order :
+  Permutation order (seq 0 (length tasks)) ->
+  run_tasks order tasks = run_tasks (seq 0 (length tasks)) tasks /\
+  run_tasks order tasks = map (fun t => Some (t tt)) tasks.
+Proof.
+  intros P. split; [apply schedule_independent; exact P|].
+  apply run_tasks_covering. intros k Hk.
+  apply (Permutation_in _ (Permutation_sym P)). apply in_seq. lia.
+Qed.
+
+Theorem param_grid_spec ms dm a b :
+  (a < length ms)%nat -> (b < length dm)%nat ->
+  nth (a * length dm + b) (param_grid ms dm) (0, 0) = (nth a ms 0, nth b dm 0) /\
+  length (param_grid ms dm) = (length ms * length dm)%nat.
+Proof. intros. split; [apply param_grid_order; assumption|apply param_grid_length]. Qed.
+
+Theorem r2_formula w y yhat : ~ r2_den w y == 0 ->
+  r2 (Some w) y yhat ==
+  1 - wsum w (sqerr y yhat) / wsum w (map (fun a => (a - wsum w y / qsum w) * (a - wsum w y / qsum w)) y).
+Proof.
+  intros H. unfold r2. cbn [wts]. rewrite r2w_formula by exact H.
+  assert (E: wmean w y == wsum w y / qsum w) by (unfold wmean; apply Qred_correct).
+  rewrite (wsum_ext_r w _ _ (dev_ext _ _ y E)). reflexivity.
+Qed.
